@@ -69,6 +69,13 @@ func parseInitialState(initialState string) (*model.CreateRequest, error) {
 		return nil, err
 	}
 
+	// the initial state consists of suffix data and delta: a "type" member survives the round trip below (it is a
+	// member of the create request model) whatever its value is, so it is checked here - only the type of the
+	// operation the initial state stands for is tolerated
+	if createRequest.Operation != "" && createRequest.Operation != operation.TypeCreate {
+		return nil, errors.New("initial state is not valid")
+	}
+
 	expected, err := canonicalizer.MarshalCanonical(createRequest)
 	if err != nil {
 		return nil, err
